@@ -98,13 +98,23 @@ RelClauses(S, d, prune, o, outs, orcs) ==
         ex  == S.exact
         rtol(s) == IF s \in DOMAIN o1.rtol THEN 2 * o1.rtol[s] + 4 ELSE (IF ex THEN Nano ELSE 1000000)
         G == 4000
+        \* K4 (known finding, DESIGN section 8): the two presentations resolved an exact tie
+        \* of reachability values differently (K1 seen through C13), so Player 1 is cut to
+        \* different actions and the reward phase solves two different conditioned games.
+        \* Differences at states whose competition is clearly decided are reported by
+        \* C13.RStratRenamed and are never excused.
+        tieflip == o1.k = "Return" /\ o.k = "Return" /\
+                   \E s \in 1..g.n : g.owner[s] # PR /\ ~o1.rstrat[s].none /\ ~o.rstrat[rel.pi[s]].none /\
+                       {Alpha(rel, o1.rstrat[s].acts[j]) : j \in DOMAIN o1.rstrat[s].acts}
+                          # SeqSet(o.rstrat[rel.pi[s]].acts)
+        KT == IF tieflip THEN "K4:" ELSE ""
     IN  (IF o1.k # o.k \/ o1.cls # o.cls THEN {"C13.SolvableSame"} ELSE {})
         \cup (IF o1.k # "Return" \/ o.k # "Return" THEN {}
               ELSE
-                {"C13.RewRenumbered s=" \o S2(s) :
+                {KT \o "C13.RewRenumbered s=" \o S2(s) :
                     s \in {s \in o1.dom : rtol(s) < Nano /\
                              ~FixNear(Fx(o.rew[rel.pi[s]]), Fx(o1.rew[s]), rtol(s))}}
-                \cup {"C13.FStratRenamed s=" \o S2(s) :
+                \cup {KT \o "C13.FStratRenamed s=" \o S2(s) :
                     s \in {s \in o1.dom : g.owner[s] # PR /\ ~o1.rstrat[s].none /\
                              LET row == SelectSeq(g.tr[s], LAMBDA e :
                                            /\ (g.owner[s] = P1 => e.a \in SeqSet(o1.rstrat[s].acts))
